@@ -95,6 +95,10 @@ var c10Tmpls = []c10Tmpl{
 	{".a, length", "map", "many", false, "union"},
 	{"length, keys", "map", "many", false, "union"},
 	{"., .", "any", "many", false, "union"},
+	{"pick([\"a\", \"b\"])", "map", "1", false, "pick-root"},
+	{"pick([\"a\"]) | .a", "map", "1", false, "pick-root"},
+	{"pick([0])", "seq", "1", false, "pick-root"},
+	{"omit([\"a\"])", "map", "1", false, "pick-root"},
 	{"(., .[]) | . == 1", "map", "many", false, "union-root-first"},
 	{"(., .[]) | [kind]", "map", "many", false, "union-root-first"},
 	{"(., ..) | length * 10", "map", "many", false, "union-root-first"},
